@@ -442,4 +442,49 @@ theorem trimmedCSV_join_closed (elems : List Str) (hp : ∀ e ∈ elems, closedE
   simpa using this
 
 
+theorem unquoteBody_escape (s : Str) :
+    unquoteBody (s.flatMap fun c => if validQDText c then [c] else ['\\', c]) = some s := by
+  induction s with
+  | nil => rfl
+  | cons c r ih =>
+    simp only [List.flatMap_cons]
+    by_cases hv : validQDText c = true
+    · simp only [hv, ↓reduceIte, List.singleton_append]
+      have hc : c ≠ '\\' := by intro h; subst h; revert hv; decide
+      rw [unquoteBody]
+      · simp [hv, ih]
+      · intro h _; exact hc h
+      · intro c' r' h _; exact hc h
+    · simp only [hv, Bool.false_eq_true, ↓reduceIte, List.cons_append, List.nil_append]
+      rw [unquoteBody, ih]; rfl
+
+theorem parseQuotedString_quoteString (s : Str) : parseQuotedString (quoteString s) = s := by
+  unfold parseQuotedString parseQuotedStringE quoteString
+  generalize hb : (s.flatMap fun c => if validQDText c then [c] else ['\\', c]) = body
+  have hr : (body ++ ['"']).reverse = '"' :: body.reverse := by simp
+  show (match (body ++ ['"']).reverse with
+        | '"' :: mid => unquoteBody mid.reverse
+        | _ => none).getD _ = s
+  rw [hr]
+  simp only [List.reverse_reverse]
+  rw [← hb, unquoteBody_escape]; rfl
+
+/-- two qualified no-cache directives: the directive map afterwards names the fields of BOTH lists -/
+theorem two_qualified_lists (m : Directives) (prev v : Str) (hp : alookup sNoCache m = some prev)
+    (hq1 : (parseQuotedString prev).isEmpty = false) (hq2 : (parseQuotedString v).isEmpty = false) :
+    (directiveInsert m sNoCache v).respNoCache =
+      some (some (trimmedCSV (parseQuotedString prev ++ [','] ++ parseQuotedString v))) := by
+  unfold directiveInsert Directives.respNoCache
+  simp only [hp, ↓reduceIte, hq1, hq2, Bool.false_eq_true]
+  have : alookup (str% "no-cache") (ainsert sNoCache (quoteString (parseQuotedString prev ++ [','] ++ parseQuotedString v)) m) =
+      some (quoteString (parseQuotedString prev ++ [','] ++ parseQuotedString v)) := by
+    rw [show (str% "no-cache") = sNoCache from rfl, alookup_ainsert]; simp
+  rw [this]
+  simp only [parseQuotedString_quoteString]
+  have hne : (parseQuotedString prev ++ [','] ++ parseQuotedString v).isEmpty = false := by
+    cases hx : parseQuotedString prev with
+    | nil => rw [hx] at hq1; cases hq1
+    | cons a b => rfl
+  simp
+
 end Httpcache
